@@ -220,7 +220,11 @@ inductive CallArgErr where
   | arg (index : Nat) (e : ArgErr)
   deriving DecidableEq, Repr
 
-/-- declared memory regions (`IndexMap<String, MemoryRegion>`; only `size` matters) -/
+/-- declared memory regions (`IndexMap<String, MemoryRegion>`).  Only `MemoryRegion::size` is represented:
+`resolve` and `resolve_return` never read `MemoryRegion::sharing`, so a region declared `SHARING parent
+[OFFSET …]` is resolved by its OWN declared element type and length, whatever the parent's type is and whether
+or not the parent is declared.  The harness declares such regions (same-typed / different-typed / undeclared
+parent, offsets, chains) in every slot kind; the driver decodes the sharing clause away. -/
 abbrev Regions := List (String × Vector)
 
 def Regions.get (rs : Regions) (name : String) : Option Vector :=
